@@ -70,13 +70,15 @@ void creds_chain(const CredSet *cs, int server, uint8_t *out, size_t *outlen);
 #define MAX_ROUNDS 16
 #define MAX_FAULTS 8
 
-enum { RM_C2S = 0, RM_S2C = 1, RM_DUPLEX = 2 };
+enum { RM_C2S = 0, RM_S2C = 1, RM_DUPLEX = 2, RM_C2S_ACKED = 3, RM_S2C_ACKED = 4 };
 
 typedef struct Round {
 	int mode;
 	int64_t n[2];          /* bytes written per direction (0 if that direction idle) */
 	int64_t wchunk[2];     /* write-call size per direction, 0 = everything in one call */
 	int64_t rbuf_max[2];   /* reader buffer sizes are drawn in 1..rbuf_max */
+	int64_t ack_every, ack_size;   /* ACKED modes: the reader writes ack_size bytes back each time ack_every more bytes arrived,
+	                                  also while part of a record is still buffered (allowed by the TLS 1.3 API) */
 } Round;
 
 enum {
@@ -107,11 +109,12 @@ typedef struct Plan {
 	/* auth */
 	int64_t defect, defect_role, defect_arg;
 	/* entropy */
-	int64_t op, op_count, efail_node, efail_at, efail_rest, eburst_at, eburst_k, eburst_val;
+	int64_t op, op_count, efail_node, efail_at, efail_rest, efail_errno, eburst_at, eburst_k, eburst_val;
 	/* threads */
 	int64_t ntasks, preempt_mean, pct_d;
 	/* byz */
 	int64_t victim;
+	int64_t tz;            /* process time zone during the run: 0 unset, 1 UTC, 2 CST-8, 3 PST8, 4 <+0530>-5:30 */
 	int64_t extra_roots;   /* unrelated additional trust anchors configured next to the real one */
 	int nrounds; Round rounds[MAX_ROUNDS];
 	int nfaults; Fault faults[MAX_FAULTS];
